@@ -303,6 +303,7 @@ struct Rw<'a> {
     err: Option<String>,
     no_ufcs: bool,
     ufcs_calls: bool,
+    index_ovl: Vec<String>, // R16: places whose `x[e]` is an overloaded Index/IndexMut call
     substs: Vec<(String, String)>,
     subst_hits: Vec<usize>,
     after_pats: Vec<String>,   // squashed statement texts after which an `after["..."]` anchor is placed
@@ -567,6 +568,23 @@ impl<'a> VisitMut for Rw<'a> {
                     continue;
                 }
             }
+            // R15: `for PAT in E.iter_mut().rev() BODY` => descending index loop over `E` (a slice or array place):
+            //      `let mut vx_itK: usize = E.len(); while vx_itK > 0 { vx_itK -= 1; let PAT = &mut E[vx_itK]; BODY }`
+            if let Stmt::Expr(Expr::ForLoop(f), _) = &s {
+                if let Some(place) = iter_mut_rev_place(&f.expr) {
+                    if f.label.is_none() {
+                        let k = self.loops;
+                        let it = syn::Ident::new(&format!("vx_it{k}"), Span::call_site());
+                        let pat = &f.pat;
+                        let body_stmts = &f.body.stmts;
+                        self.log.add("R15", "iter-mut-rev", format!("for {} in {} => descending index loop over {}", squash(&pat.to_token_stream().to_string()), squash(&f.expr.to_token_stream().to_string()), squash(&place.to_token_stream().to_string())));
+                        let l: Stmt = syn::parse2(quote!( let mut #it: usize = #place.len(); )).unwrap();
+                        out.push(l);
+                        let w: Expr = syn::parse2(quote!( while #it > 0 { #it -= 1; let #pat = &mut #place[#it]; #(#body_stmts)* } )).unwrap();
+                        s = Stmt::Expr(w, None);
+                    }
+                }
+            }
             let loop_id = match &s {
                 Stmt::Expr(e, _) if is_loop_expr(e) => Some(self.loops),
                 _ => None,
@@ -707,6 +725,59 @@ impl<'a> VisitMut for Rw<'a> {
             *c.body = Expr::Block(syn::ExprBlock { attrs: vec![], label: None, block: blk });
             return;
         }
+        // R16: overloaded indexing on the places named by `index_ovl=`: `x[e] = v` => `*x.index_mut(e) = v`,
+        //      `x[e]` (read) => `(*x.index(e))` -- Rust's definition of Index / IndexMut; `index`, `index_mut` are extracted units
+        if !self.index_ovl.is_empty() {
+            let is_ovl = |x: &Expr, names: &Vec<String>| -> bool {
+                if let Expr::Index(ix) = x {
+                    if let Expr::Path(p) = &*ix.expr {
+                        if let Some(id) = p.path.get_ident() {
+                            return names.iter().any(|n| id == n);
+                        }
+                    }
+                }
+                false
+            };
+            if let Expr::Assign(a) = e {
+                if is_ovl(&a.left, &self.index_ovl) {
+                    if let Expr::Index(ix) = &*a.left {
+                        let base = &ix.expr;
+                        let idx = &ix.index;
+                        self.log.add("R16", "index-mut", format!("{} = .. => *{}.index_mut({}) = ..", squash(&a.left.to_token_stream().to_string()), squash(&base.to_token_stream().to_string()), squash(&idx.to_token_stream().to_string())));
+                        let nl: Expr = syn::parse2(quote!( *#base.index_mut(#idx) )).unwrap();
+                        *a.left = nl;
+                        // the (rewritten) assignee is not visited again; its index expression is
+                        if let Expr::Unary(u) = &mut *a.left {
+                            if let Expr::MethodCall(m) = &mut *u.expr {
+                                for arg in m.args.iter_mut() {
+                                    self.visit_expr_mut(arg);
+                                }
+                            }
+                        }
+                        self.visit_expr_mut(&mut a.right);
+                        return;
+                    }
+                }
+            }
+            if is_ovl(e, &self.index_ovl) {
+                if let Expr::Index(ix) = e {
+                    let base = ix.expr.clone();
+                    let idx = ix.index.clone();
+                    self.log.add("R16", "index", format!("{} => (*{}.index({}))", squash(&e.to_token_stream().to_string()), squash(&base.to_token_stream().to_string()), squash(&idx.to_token_stream().to_string())));
+                    *e = syn::parse2(quote!( (*#base.index(#idx)) )).unwrap();
+                    if let Expr::Paren(pa) = e {
+                        if let Expr::Unary(u) = &mut *pa.expr {
+                            if let Expr::MethodCall(m) = &mut *u.expr {
+                                for arg in m.args.iter_mut() {
+                                    self.visit_expr_mut(arg);
+                                }
+                            }
+                        }
+                    }
+                    return;
+                }
+            }
+        }
         // R4: a op &b  =>  core::ops::Op::op(a, &b)
         if !self.no_ufcs {
             if let Expr::Binary(b) = e {
@@ -801,6 +872,20 @@ impl<'a> VisitMut for Rw<'a> {
     }
 }
 
+/// `E.iter_mut().rev()` => Some(E)
+fn iter_mut_rev_place(e: &Expr) -> Option<Expr> {
+    if let Expr::MethodCall(m) = e {
+        if m.method == "rev" && m.args.is_empty() {
+            if let Expr::MethodCall(m2) = &*m.receiver {
+                if m2.method == "iter_mut" && m2.args.is_empty() {
+                    return Some((*m2.receiver).clone());
+                }
+            }
+        }
+    }
+    None
+}
+
 fn wrap_loop_body(body: &mut Block, k: usize) {
     // make sure a trailing expression is a statement, then add markers
     if let Some(Stmt::Expr(e, semi)) = body.stmts.last_mut() {
@@ -825,6 +910,7 @@ struct UnitSpec {
     keep_pub: bool,
     no_ufcs: bool,
     ufcs_calls: bool,
+    index_ovl: Vec<String>,
     spec: String,
     anchors: BTreeMap<String, String>,
     open_attrs: String, // extra attributes to print before the fn
@@ -884,7 +970,7 @@ fn gen_unit(ctx: &mut Ctx, u: &UnitSpec, report: &mut Vec<serde_json::Value>) ->
     let after_multi: Vec<bool> = after_keys.iter().map(|k| split_after(k).unwrap().1).collect();
     let after_occ: Vec<Option<usize>> = after_keys.iter().map(|k| split_after(k).unwrap().2).collect();
     let n_after = after_pats.len();
-    let mut rw = Rw { ctx, log: &mut log, loops: 0, closures: 0, tmp: 0, err: None, no_ufcs: u.no_ufcs, ufcs_calls: u.ufcs_calls, substs: u.substs.clone(), subst_hits: vec![0; u.substs.len()], after_pats, after_hits: vec![0; n_after], after_occ: after_occ.clone() };
+    let mut rw = Rw { ctx, log: &mut log, loops: 0, closures: 0, tmp: 0, err: None, no_ufcs: u.no_ufcs, ufcs_calls: u.ufcs_calls, index_ovl: u.index_ovl.clone(), substs: u.substs.clone(), subst_hits: vec![0; u.substs.len()], after_pats, after_hits: vec![0; n_after], after_occ: after_occ.clone() };
     // fn-level attributes
     match rw.strip_attrs(&mut fp.attrs, "fn") {
         Ok(true) => {},
@@ -1142,9 +1228,17 @@ fn gen_item(ctx: &mut Ctx, file: &str, sel: &str, strip_generics: bool, report: 
             for a in s.attrs.drain(..) {
                 dropped.push(a.to_token_stream().to_string());
             }
+            // restricted visibility (`pub(super)`, `pub(crate)`, `pub(in ..)`) => `pub` (R1: the bundle is one flat module)
+            if let syn::Visibility::Restricted(_) = s.vis {
+                s.vis = syn::parse_quote!(pub);
+                log.add("R1", "visibility", format!("struct {}: restricted visibility => pub", s.ident));
+            }
             for f in s.fields.iter_mut() {
                 for a in f.attrs.drain(..) {
                     dropped.push(a.to_token_stream().to_string());
+                }
+                if let syn::Visibility::Restricted(_) = f.vis {
+                    f.vis = syn::parse_quote!(pub);
                 }
             }
         },
@@ -1174,7 +1268,7 @@ fn gen_item(ctx: &mut Ctx, file: &str, sel: &str, strip_generics: bool, report: 
             st.generics = Default::default();
         }
     }
-    let mut rw = Rw { ctx, log: &mut log, loops: 0, closures: 0, tmp: 0, err: None, no_ufcs: false, ufcs_calls: false, substs: vec![], subst_hits: vec![], after_pats: vec![], after_hits: vec![], after_occ: vec![] };
+    let mut rw = Rw { ctx, log: &mut log, loops: 0, closures: 0, tmp: 0, err: None, no_ufcs: false, ufcs_calls: false, index_ovl: vec![], substs: vec![], subst_hits: vec![], after_pats: vec![], after_hits: vec![], after_occ: vec![] };
     rw.visit_item_mut(&mut it);
     let toks = it.to_token_stream().to_string();
     let sha = format!("{:x}", Sha256::digest(toks.as_bytes()));
@@ -1420,6 +1514,7 @@ fn main() {
                     u.keep_pub = kv.get("vis").map(|m| m == "pub").unwrap_or(false);
                     u.no_ufcs = kv.get("ufcs").map(|m| m == "off").unwrap_or(false);
                     u.ufcs_calls = kv.get("ufcs").map(|m| m == "calls").unwrap_or(false);
+                    u.index_ovl = kv.get("index_ovl").map(|m| m.split(',').map(|x| x.trim().to_string()).filter(|x| !x.is_empty()).collect()).unwrap_or_default();
                     u.open_attrs = kv.get("attrs").cloned().unwrap_or_default();
                     u.self_ty = kv.get("self_ty").cloned();
                     u.drop_const = kv.get("const").map(|m| m == "drop").unwrap_or(false);
